@@ -962,6 +962,94 @@ impl CaseSpace for OTransport {
 }
 
 // ---------------------------------------------------------------------------------------
+// (O-e) a connection that replaces a live one: nothing of the old connection may leak
+// ---------------------------------------------------------------------------------------
+
+/// The TCP server hands a new connection to the outstation while the old session is still
+/// open (half-open connection: the master's side died, the outstation never saw it end).
+/// Whatever the old connection delivered -- half a frame, half a fragment, a request in
+/// progress -- the stream of the new connection is well-formed and must be served as such.
+struct OReplaced {
+    prefixes: Vec<(String, Vec<u8>)>,
+}
+
+fn build_oreplaced() -> OReplaced {
+    let mut v: Vec<(String, Vec<u8>)> = vec![("nothing".into(), vec![])];
+    let read = link::master_data(1024, 1, &[0xC0, 0xC1, 0x01, 60, 1, 0x06]);
+    for n in [1usize, 2, 3, 5, 9, 10, 11, 14, read.len() - 1] {
+        v.push((format!("first-{n}-octets-of-a-request-frame"), read[..n].to_vec()));
+    }
+    v.push(("05".into(), vec![0x05]));
+    let mut seg = vec![0x40u8 | 9];
+    seg.extend_from_slice(&[0xC0, 0x02, 50, 1, 0x07, 1]);
+    v.push(("first-segment-of-a-two-segment-fragment".into(), link::master_data(1024, 1, &seg)));
+    let mut big = vec![0x40u8 | 3];
+    big.extend((0..249).map(|k| if k == 0 { 0xC1 } else { k as u8 }));
+    v.push(("full-first-segment".into(), link::master_data(1024, 1, &big)));
+    v.push(("reset-link-then-half-a-frame".into(), {
+        let mut b = link::frame(0xC0, 1024, 1, &[]);
+        b.extend_from_slice(&read[..7]);
+        b
+    }));
+    OReplaced { prefixes: v }
+}
+
+impl CaseSpace for OReplaced {
+    fn name(&self) -> String {
+        "outstation-replaced-connection".into()
+    }
+    fn total(&self) -> usize {
+        self.prefixes.len() * 4 * 3
+    }
+    fn run(&self, index: usize, transcript: bool) -> RunResult {
+        let mut res = RunResult::default();
+        let (label, prefix) = &self.prefixes[index % self.prefixes.len()];
+        let i = index / self.prefixes.len();
+        let close = i % 2 == 0;
+        let decode_all = (i / 2) % 2 == 0;
+        let state = i / 4; // 0 idle, 1 solicited confirm wait, 2 unsolicited confirm wait
+        res.obs = index as u64 + 4242;
+        let c = Corner { sol_tx: 2048, unsol_tx: 2048, rx: 2048, decode_all, close };
+        let mut sim = OSim::new(&ocfg(&c, state == 2), 1);
+        populate(&mut sim, false);
+        let mut p = OProbe { seq: 0 };
+        let key = format!("outstation/replaced-connection/{label}");
+        if enter_state(&mut sim, [0usize, 1, 5][state], &mut p).is_err() {
+            return res;
+        }
+        sim.send_raw(prefix);
+        res.transitions += 1;
+        if transcript {
+            res.transcript.push(format!("state {state}, close={close}: old connection delivered {label} ({} octets); a new connection replaces it", prefix.len()));
+        }
+        // no EOF on the old pipe: the server task drops the running session for the new one
+        sim.connect(false);
+        let sessions = sim.sessions;
+        let window = if state == 2 { 3 * CONFIRM_MS } else { 0 };
+        match p.probe(&mut sim, window, if transcript { Some(&mut res.transcript) } else { None }) {
+            Ok(objs) if binaries_ok(&objs) => res.nontrivial = true,
+            Ok(objs) => res.violation = Some(Violation::new("C01.O2", key.clone(), format!("probe answered with {}", app::hex(&objs)))),
+            Err(e) => {
+                let ended = sim.pipe.as_ref().map(|p| p.is_closed()).unwrap_or(true);
+                let clause = if sim.failure().is_some() { "C01.O1" } else { "C01.O4" };
+                res.violation = Some(Violation::new(
+                    clause,
+                    fail_key("outstation/replaced-connection", &e),
+                    format!(
+                        "old connection delivered {label}, then was replaced (close={close}, state {state}): the first well-formed request on the new connection: {e}{}",
+                        if ended { "; the new session was ended although its own stream is well-formed" } else { "" }
+                    ),
+                ));
+            }
+        }
+        let _ = sessions;
+        finish(&mut res, &sim, "C01.O1", key, label);
+        res.model_states.push(state as u64);
+        res
+    }
+}
+
+// ---------------------------------------------------------------------------------------
 // master
 // ---------------------------------------------------------------------------------------
 
@@ -1473,6 +1561,7 @@ fn spaces(tier: &str) -> Vec<Box<dyn CaseSpace>> {
         Box::new(build_omax(tier)),
         Box::new(build_ostream(tier)),
         Box::new(build_otransport(tier)),
+        Box::new(build_oreplaced()),
         Box::new(build_mfrags(tier)),
         Box::new(MStates { hostile: master_small_hostile() }),
         Box::new(MStream { tokens: master_link_tokens(), depth: if tier == "quick" { 2 } else { 3 } }),
